@@ -9,6 +9,7 @@ mod conn;
 mod conngen;
 mod dbg;
 mod e2e;
+mod hs;
 mod threads;
 mod gen_pure;
 mod pure;
@@ -33,6 +34,9 @@ fn main() {
             let mut out = std::io::BufWriter::new(out.lock());
             let ok = if profile == "threads" {
                 threads::generate(seed, cases, &mut out);
+                true
+            } else if profile == "server-preface" {
+                hs::generate(seed, cases, &mut out);
                 true
             } else if profile.starts_with("e2e-") {
                 e2e::generate(profile, seed, cases, &mut out)
@@ -89,6 +93,9 @@ fn main() {
                     if ws[0] == "e2e_run" {
                         return e2e::handle(&ws);
                     }
+                    if ws[0] == "hs_run" {
+                        return hs::handle(&ws);
+                    }
                     if ws[0].starts_with("fc_") || ws[0].starts_with("stt_") {
                         return cmp.handle(&ws);
                     }
@@ -103,7 +110,15 @@ fn main() {
                 let ans = match ans {
                     Ok(Some(a)) => a,
                     Ok(None) => "bad-op".to_string(),
-                    Err(_) => "panic".to_string(),
+                    Err(_) => {
+                        if ws[0].starts_with("cn_") {
+                            // the connection's mutexes may be poisoned: dropping its handles would panic again (inside
+                            // a destructor: an abort). Leak them; the rest of the history runs against nothing.
+                            let old = std::mem::replace(&mut cn, conn::ConnH::none());
+                            std::mem::forget(old);
+                        }
+                        "panic".to_string()
+                    }
                 };
                 writeln!(out, "{}", ans).unwrap();
             }
